@@ -24,7 +24,14 @@ type Parser struct {
 
 	// operandStack temporarily holds operands until we hit an operator
 	operandStack []core.Object
+
+	// depth is the current nesting depth of arrays and dictionaries
+	depth int
 }
+
+// maxNestingDepth bounds how deep arrays and dictionaries may nest: operands are parsed
+// recursively, and a stream of millions of '[' would otherwise exhaust the stack.
+const maxNestingDepth = 256
 
 // NewParser creates a new content stream parser for the given data.
 func NewParser(data []byte) *Parser {
@@ -436,6 +443,12 @@ func (p *Parser) parseArray() (core.Object, error) {
 	}
 	p.pos++ // skip '['
 
+	if p.depth >= maxNestingDepth {
+		return nil, fmt.Errorf("operands nested deeper than %d levels", maxNestingDepth)
+	}
+	p.depth++
+	defer func() { p.depth-- }()
+
 	var arr core.Array
 
 	for p.pos < len(p.data) {
@@ -467,6 +480,12 @@ func (p *Parser) parseDict() (core.Object, error) {
 		return nil, fmt.Errorf("dictionary must start with '<<'")
 	}
 	p.pos += 2 // skip '<<'
+
+	if p.depth >= maxNestingDepth {
+		return nil, fmt.Errorf("operands nested deeper than %d levels", maxNestingDepth)
+	}
+	p.depth++
+	defer func() { p.depth-- }()
 
 	dict := make(core.Dict)
 
